@@ -110,4 +110,27 @@ STATUS = {
               "step's generator, nothing reorders or drops afterwards, no other randomness in step, rand 0.8.5 pinned. Uniformity of Fisher-Yates and "
               "generator quality are trusted; no frequencies are measured."),
         note=TRUST + "rand 0.8.5 shuffle is Fisher-Yates driven only by the passed generator."),
+    "C09": dict(
+        claimed=True,
+        technique="deny-list reachability on the resolved call graph + provenance of every generator argument (through reborrows and closure captures) + construction-site census + sibling comparison of the runner branches + Cargo.lock pins",
+        text=("Decides by effect analysis that nothing but the seeded generator can influence a run: no deny-listed nondeterminism source is reachable "
+              "from any simulation root, every draw takes the enclosing function's own generator parameter, generators are built once from the seed "
+              "parameter in the runners / PyO3 constructors only, both progress branches are identical. Sound over-approximation modulo the listed "
+              "library trust. 'Different seeds give different runs' is not decided."),
+        note=TRUST + "kdam (progress bar) is exempt: display only."),
+    "C14": dict(
+        claimed=True,
+        technique="forwarding conformance: index provenance (asset parameter / closure index), name-role agreement of forwarded arguments, same-named callee, effect summaries confined to order_books[asset], fan-out loop shape",
+        text=("Decides that Market and MarketEnv are literal forwarders: each per-asset method reaches exactly order_books[its asset] with id order_id.1 and "
+              "name-bound arguments, all-asset queries index only with the closure index and call the matching singular query, clock/toggles/reset reach "
+              "every book, MarketEnv getters index with their asset parameter. Equality with stand-alone books then follows from the book-level properties."),
+        note=TRUST + "get_order_book_mut is a documented escape hatch (noted, not a violation)."),
+    "C20": dict(
+        claimed=True,
+        technique="token-program reconstruction of both derive macros from their MIR (uniformity in the fields) + fact extraction of a generated witness crate (exhaustive struct shapes up to a bound) + the repository's own derive sites",
+        text=("Exhaustive over the bounded witness family (quick: all shapes with 1..3 fields over {A, B, nested set} + long shapes up to 8 fields, both "
+              "macros; thorough: all shapes up to 6 fields + a 1/37 sample of the 8-field shapes) that each generated update is the straight-line "
+              "declaration-order sequence of field updates on the shared env/rng, and a uniformity argument read off the macro's own code (only the "
+              "identifier of each field is read, plain iteration, one fixed token sequence per field) that extends the verdict to all shapes."),
+        note=TRUST + "quote/syn/proc-macro2 semantics of push_* calls (trusted)."),
 }
